@@ -138,6 +138,7 @@ class ImportTargetCallee(Contract):
         return SRef(r, (Signal, Slice, Concat))
 
 
+@guarded("koi", "hdl21.proto.importing:import_concat")
 def import_concat_obligations(max_arity=4):
     """import_concat(pconc, module): the imported concatenation's parts are the imports of the VLSIR parts in REVERSE
     order (VLSIR is most-significant first) - records of 1 to 4 parts (arity unrolled, parts symbolic)."""
@@ -171,7 +172,9 @@ def import_concat_obligations(max_arity=4):
             ok = len(calls) == arity and all(isinstance(calls[j][1].pconn, SRef) and
                                              calls[j][1].pconn.z.eq(pparts[arity - 1 - j].z) for j in range(arity))
             goal = z3.BoolVal(False)
-            if ok and isinstance(v, SRef):
+            if ok and isinstance(v, SRef) and tuple(eng.classes_of(s2, v)) != (Concat,):
+                goal = z3.BoolVal(False)           # whatever was returned, it is not a Concat of the imported parts
+            elif ok and isinstance(v, SRef):
                 got = eng.read_field(s2, v, "parts")[0][1]
                 goal = z3.BoolVal(isinstance(got, tuple) and len(got) == arity and all(isinstance(g, SRef) for g in got))
             obs.append(Obligation(f"{key}/arity{arity}/p{pi}/post.parts-in-reverse-order", "post", list(s2.pc), goal, key,
